@@ -20,6 +20,9 @@ def run(chk, tier):
         ci.check_metatype_new(chk, prog, cfg, rule="R5.1")
         cr.check_register_type(chk, prog, cfg, rule="R5.2")
         cr.check_intern_or_get(chk, prog, cfg, rule="R5.2b")
+        cr.check_who_may_write(chk, prog, cfg, rule="R5.2c")
+        # the exported registry has exactly the entries of the Registry (no merging / dropping at conversion time)
+        cr.check_from_registry(chk, prog, cfg, rule="R5.6")
         n = ci.check_identities(chk, prog, cfg)
         chk.count("alias_impls[%s]" % cfg, n)
     n = len({i["construct"] for i in chk.instances if i["rule"] == "R5.3" and i["construct"].startswith("alias:")})
